@@ -5,14 +5,19 @@ every case and compares with the documented result ("every document-shaped modul
 against an authoritative corpus before it is trusted as an oracle", DESIGN 1.2).
 
 Only the constructs the specification covers are converted; a case is skipped (and counted by
-reason) when it uses anything else: non-integer numbers, regular expressions, arithmetic,
-functions other than length, top-level function calls, dot-number selectors, error cases,
-expression selectors [(...)].  The parser below reads expression TEXT into the abstract syntax of
+reason) when it uses anything else: regular expressions (=~), dot-number selectors, error cases,
+expression selectors [(...)], object literals, numbers that do not fit TLC's 32-bit integers.
+Functions family: function calls (in filters and as the whole expression, kind "top"), unary minus
+and + - * / % are converted; binary operators are parsed with the operator levels of the "JsonCons
+JSONPath" document (1 ! unary -, 3 * / %, 4 + -, 5 < <= > >=, 6 == !=, 7 &&, 8 ||, left associative);
+non-integer numbers become normalised rationals ["rat", n, d].  The parser below reads expression TEXT into the abstract syntax of
 JsonPath.tla (nested arrays = TLA+ tuples); it is a tool for validating the spec, not part of any check.
 
 usage: c12_refdata.py [test_data_dir] > C12_ref.ndjson
 """
 import json, sys, os, re, glob
+from fractions import Fraction
+from decimal import Decimal
 
 
 class Skip(Exception):
@@ -51,11 +56,18 @@ SCALE = 1      # see main(): documents with non-integer numbers are retried with
 
 
 def num(v):
+    """integers as before (scaled runs multiply by SCALE); with SCALE == 0 ("exact" mode of the functions family) a
+    non-integer becomes the normalised rational ["rat", n, d]"""
+    if SCALE == 0:
+        x = Fraction(v) if not isinstance(v, float) else Fraction(Decimal(repr(v)))
+        if abs(x.numerator) > 10**6 or x.denominator > 10**4:
+            raise Skip('big-number')
+        return ["int", x.numerator] if x.denominator == 1 else ["rat", x.numerator, x.denominator]
     x = v * SCALE
-    if isinstance(x, float):
-        if abs(x - round(x)) > 1e-6:
+    if isinstance(x, (float, Decimal, Fraction)):
+        if abs(float(x) - round(float(x))) > 1e-6:
             raise Skip('non-integer-number')
-        x = int(round(x))
+        x = int(round(float(x)))
     if abs(x) > 2 * 10**9:
         raise Skip('big-number')
     return ["int", x]
@@ -66,7 +78,7 @@ def wire(v):
         return ["null"]
     if isinstance(v, bool):
         return ["bool", v]
-    if isinstance(v, (int, float)):
+    if isinstance(v, (int, float, Decimal)):
         return num(v)
     if isinstance(v, str):
         return ["str", cps(v)]
@@ -232,46 +244,103 @@ class P:
             raise Skip('syntax:selector at %d' % save)
         return ["idx", a]
 
-    # ---- filter expressions:  or > and > not > comparison > atom
-    def expr(self):
-        a = self.and_()
+    # ---- filter expressions.  Operator levels ([ext] "JsonCons JSONPath", operator table): 1 ! and unary -,
+    #      3 * / %, 4 + -, 5 < <= > >=, 6 == !=, 7 &&, 8 ||; binary operators associate to the left.
+    BIN = [(8, ['||']), (7, ['&&']), (6, ['==', '!=']), (5, ['<=', '>=', '<', '>']), (4, ['+', '-']), (3, ['*', '/', '%'])]
+
+    def expr(self, li=0):
+        if li == len(self.BIN):
+            return self.unary()
+        lv, ops = self.BIN[li]
+        a = self.expr(li + 1)
         while True:
             self.ws()
-            if self.eat('||'):
-                a = ["or", a, self.and_()]
-            else:
+            if self.peek(2) == '=~':
+                raise Skip('regex')
+            hit = None
+            for op in ops:
+                if self.s.startswith(op, self.i):
+                    if op in ('<', '>') and self.peek(2) in ('<=', '>='):
+                        continue
+                    if op == '!=' or op == '==' or op not in ('=',):
+                        hit = op
+                        break
+            if hit is None:
+                if li == 0 and self.peek() == '=' and self.peek(2) != '==':
+                    raise Skip('syntax:single =')
                 return a
-
-    def and_(self):
-        a = self.not_()
-        while True:
-            self.ws()
-            if self.eat('&&'):
-                a = ["and", a, self.not_()]
+            self.i += len(hit)
+            b = self.expr(li + 1)
+            if hit == '||':
+                a = ["or", a, b]
+            elif hit == '&&':
+                a = ["and", a, b]
+            elif hit in ('==', '!=', '<', '<=', '>', '>='):
+                a = ["cmp", hit, a, b]
             else:
-                return a
+                global USED_ARITH
+                USED_ARITH = True
+                a = ["ar", hit, a, b]
 
-    def not_(self):
+    def unary(self):
         self.ws()
         if self.peek() == '!' and self.peek(2) != '!=':
             self.i += 1
-            return ["not", self.not_()]
-        return self.cmp()
+            return ["not", self.unary()]
+        if self.peek() == '-' and not re.match(r'-[0-9]', self.s[self.i:self.i + 2]):
+            global USED_ARITH
+            USED_ARITH = True
+            self.i += 1
+            return ["neg", self.unary()]
+        return self.atom()
 
-    def cmp(self):
-        a = self.atom()
+    def json_array(self):
+        # a JSON array literal (elements: numbers, strings, true/false/null, arrays)
+        self.need('[')
+        out = []
         self.ws()
-        for op in ('==', '!=', '<=', '>=', '<', '>'):
-            if self.eat(op):
-                b = self.atom()
-                return ["cmp", op, a, b]
-        if self.peek(2) == '=~':
-            raise Skip('regex')
-        if self.peek() in '+-*/%' and self.peek(2) not in ('||', '&&'):
-            raise Skip('arithmetic')
-        if self.peek() == '=':
-            raise Skip('syntax:single =')
-        return a
+        if self.eat(']'):
+            return ["arr", out]
+        while True:
+            self.ws()
+            if self.peek() == '[':
+                out.append(self.json_array())
+            elif self.peek() == '"':
+                out.append(["str", cps(self.quoted())])
+            else:
+                m = re.compile(r'-?[0-9]+(\.[0-9]+)?([eE][-+]?[0-9]+)?|true|false|null').match(self.s, self.i)
+                if not m:
+                    raise Skip('json-literal')
+                self.i = m.end()
+                t = m.group(0)
+                out.append(["null"] if t == 'null' else ["bool", t == 'true'] if t in ('true', 'false') else num(Decimal(t) if (m.group(1) or m.group(2)) else int(t)))
+            self.ws()
+            if self.eat(','):
+                continue
+            self.need(']')
+            return ["arr", out]
+
+    def function(self, name):
+        # name( already consumed up to and including the parenthesis
+        global USED_FN
+        USED_FN = True
+        args = []
+        self.ws()
+        if not self.eat(')'):
+            while True:
+                args.append(self.expr())
+                self.ws()
+                if self.eat(','):
+                    continue
+                self.need(')')
+                break
+        known = {'abs': 1, 'avg': 1, 'ceil': 1, 'contains': 2, 'ends_with': 2, 'floor': 1, 'keys': 1, 'length': 1, 'max': 1, 'min': 1,
+                 'prod': 1, 'starts_with': 2, 'sum': 1, 'to_number': 1, 'tokenize': 2}
+        if name not in known:
+            raise Skip('unknown-function')
+        if len(args) != known[name]:
+            raise Skip('arity')
+        return ["len", args[0]] if name == 'length' else ["fn", name, args]
 
     def atom(self):
         self.ws()
@@ -299,24 +368,42 @@ class P:
         m = re.compile(r'-?[0-9]+(\.[0-9]+)?([eE][-+]?[0-9]+)?').match(self.s, self.i)
         if m:
             self.i = m.end()
-            return ["lit", num(float(m.group(0)) if (m.group(1) or m.group(2)) else int(m.group(0)))]
-        if c in '[{':
+            return ["lit", num(Decimal(m.group(0)) if (m.group(1) or m.group(2)) else int(m.group(0)))]
+        if c == '[':
+            return ["lit", self.json_array()]
+        if c == '{':
             raise Skip('json-literal')
         m = re.compile(r'[A-Za-z_][A-Za-z0-9_]*').match(self.s, self.i)
         if m and self.s[m.end():m.end() + 1] == '(':
-            if m.group(0) != 'length':
-                raise Skip('function')
             self.i = m.end() + 1
-            arg = self.expr()
-            self.ws(); self.need(')')
-            return ["len", arg]
+            f = self.function(m.group(0))
+            segs = self.segments(in_filter=True)
+            if 'LENGTH' in segs:
+                raise Skip('length-property-inside-path')
+            return ["fq", f, segs] if segs else f
         raise Skip('syntax:atom at %d' % self.i)
 
 
+USED_FN = False
+USED_ARITH = False
+
+
 def parse_query(s):
+    """-> ("path", segs) for a rooted path, ("top", fe, segs) for a function call as the whole expression"""
     p = P(s)
     p.ws()
     if not p.eat('$'):
+        m = re.compile(r'[A-Za-z_][A-Za-z0-9_]*').match(p.s, p.i)
+        if m and p.s[m.end():m.end() + 1] == '(':
+            p.i = m.end() + 1
+            fe = p.function(m.group(0))
+            segs = p.segments()
+            p.ws()
+            if not p.eof():
+                raise Skip('syntax:trailing %r' % s[p.i:])
+            if any(x == 'LENGTH' for x in segs):
+                raise Skip('length')
+            return ("top", fe, segs)
         raise Skip('not-rooted')
     segs = p.segments()
     p.ws()
@@ -324,7 +411,43 @@ def parse_query(s):
         raise Skip('syntax:trailing %r' % s[p.i:])
     if any(x == 'LENGTH' for x in segs):
         raise Skip('length')
-    return segs
+    return ("path", segs)
+
+
+def convert(f, g, c):
+    """one reference case -> record.  Cases without functions / arithmetic are converted exactly as before (integers, or
+    every number scaled by 10^4); cases of the functions family are converted in "exact" mode (SCALE 0: rationals)."""
+    global SCALE, USED_FN, USED_ARITH
+    if 'error' in c:
+        raise Skip('error-case')
+    if 'result' not in c and 'path' not in c:
+        raise Skip('no-expectation')
+    last = None
+    for SCALE in (1, 10000, 0):
+        USED_FN = USED_ARITH = False
+        try:
+            if SCALE == 10000 and 'length' in c['expression']:
+                raise Skip('non-integer-number')        # lengths do not scale with the numbers
+            q = parse_query(c['expression'])
+            fnfam = USED_FN or USED_ARITH or q[0] == 'top'
+            if fnfam and SCALE != 0:
+                continue                                # functions family: exact mode only
+            if not fnfam and SCALE == 0:
+                raise last or Skip('non-integer-number')
+            rec = {'src': '%s: %s' % (os.path.basename(f), c['expression']), 'scale': SCALE, 'kind': q[0],
+                   'doc': wire(g['given']), 'segs': q[1] if q[0] == 'path' else q[2], 'fe': q[1] if q[0] == 'top' else ["lit", ["null"]],
+                   'nodups': bool(c.get('nodups')), 'sort': bool(c.get('sort')),
+                   'hasv': 'result' in c, 'hasp': 'path' in c,
+                   'want': [wire(x) for x in c.get('result', [])],
+                   'paths': [cps(x) for x in c.get('path', [])]}
+            return rec
+        except Skip as e:
+            k = str(e).split(':')[0]
+            if k == 'non-integer-number' and SCALE in (1, 10000):
+                last = e
+                continue
+            raise
+    raise last or Skip('non-integer-number')
 
 
 def main():
@@ -332,33 +455,15 @@ def main():
     skipped = {}
     n = 0
     for f in sorted(glob.glob(os.path.join(d, '*.json'))):
-        groups = json.loads(strip_comments(open(f, encoding='utf-8').read()))
+        groups = json.loads(strip_comments(open(f, encoding='utf-8').read()), parse_float=Decimal)
         for g in groups:
             for c in g['cases']:
-                global SCALE
-                for SCALE in (1, 10000):
-                    try:
-                        if 'error' in c:
-                            raise Skip('error-case')
-                        if 'result' not in c and 'path' not in c:
-                            raise Skip('no-expectation')
-                        if SCALE != 1 and 'length' in c['expression']:
-                            raise Skip('non-integer-number')        # lengths do not scale with the numbers
-                        rec = {'src': '%s: %s' % (os.path.basename(f), c['expression']), 'scale': SCALE,
-                               'doc': wire(g['given']), 'segs': parse_query(c['expression']),
-                               'nodups': bool(c.get('nodups')), 'sort': bool(c.get('sort')),
-                               'hasv': 'result' in c, 'hasp': 'path' in c,
-                               'want': [wire(x) for x in c.get('result', [])],
-                               'paths': [cps(x) for x in c.get('path', [])]}
-                        print(json.dumps(rec))
-                        n += 1
-                        break
-                    except Skip as e:
-                        k = str(e).split(':')[0]
-                        if k == 'non-integer-number' and SCALE == 1:
-                            continue
-                        skipped[k] = skipped.get(k, 0) + 1
-                        break
+                try:
+                    print(json.dumps(convert(f, g, c)))
+                    n += 1
+                except Skip as e:
+                    k = str(e).split(':')[0]
+                    skipped[k] = skipped.get(k, 0) + 1
     print('converted %d cases; skipped %s' % (n, json.dumps(skipped, sort_keys=True)), file=sys.stderr)
 
 
